@@ -24,7 +24,7 @@ type c06Case struct {
 }
 
 var clientStepGen = rapid.Custom(func(t *rapid.T) sim.Step {
-	return sim.Step{Op: rapid.SampledFrom([]string{"send", "recv", "closesend", "close", "cancel", "send", "recv", "send", "recv", "recvbad"}).Draw(t, "cop"), Size: sizeGen.Draw(t, "csize")}
+	return sim.Step{Op: rapid.SampledFrom([]string{"send", "recv", "closesend", "close", "cancel", "send", "recv", "send", "recv", "recvbad", "drain"}).Draw(t, "cop"), Size: sizeGen.Draw(t, "csize")}
 })
 var handlerStepGen = rapid.Custom(func(t *rapid.T) sim.Step {
 	return sim.Step{Op: rapid.SampledFrom([]string{"recv", "send", "recv", "send", "recv", "send", "recvbad"}).Draw(t, "hop"), Size: sizeGen.Draw(t, "hsize")}
@@ -54,6 +54,13 @@ func genRPC06(t *rapid.T, excl *string) sim.RPC {
 	} else {
 		p.Client.Steps = rapid.SliceOfN(clientStepGen, 0, 6).Draw(t, "csteps")
 		p.Handler.Steps = rapid.SliceOfN(handlerStepGen, 0, 5).Draw(t, "hsteps")
+	}
+	// the application's `defer cancel()`: the call's context is cancelled once the call is over
+	switch rapid.IntRange(0, 3).Draw(t, "cancelwhendone") {
+	case 1:
+		p.CancelWhenDone = true
+	case 2:
+		p.CancelImmediately = true
 	}
 	if rapid.IntRange(0, 2).Draw(t, "hreterr") == 0 {
 		p.Handler.Steps = append(p.Handler.Steps, sim.Step{Op: "reterr"})
